@@ -204,6 +204,16 @@ func (rb *Rebalancer) UpsertServer(u *url.URL, options ...ServerOption) error {
 	rb.mtx.Lock()
 	defer rb.mtx.Unlock()
 
+	if s, i := rb.findServer(u); i != -1 {
+		// the balancer holds the effective weight: derive the configured one from the record
+		configured := &server{weight: s.origWeight}
+		for _, o := range options {
+			if err := o(configured); err != nil {
+				return err
+			}
+		}
+		options = []ServerOption{Weight(configured.weight)}
+	}
 	if err := rb.next.UpsertServer(u, options...); err != nil {
 		return err
 	}
